@@ -106,6 +106,22 @@ def run(ctx):
         tc.mech_pass(ctx, vcases, lpick, label="c02-vt-relay-outlives-deadline")
     except ImportError:
         ctx.cov["skipped"].append("virtual-time variant: not built")
+    #  (e) many relays at once on ONE listener: single-connection behaviours merged into one behaviour of the n-connection model
+    #      (connections are independent in TcpConn.tla, C18_Isolation): the clients dial back to back, so StreamServe's accept
+    #      loop hands out a burst of connections while the handlers of the earlier ones are only just starting; every one of
+    #      them must still get its own bytes, in order, and its own end of stream
+    nconc = 40 if q else 300
+    cb = [b for b in relay if not any(e["a"] == "Tick" and e["v"] > 1 for e in b["tr"]) and len(b["tr"]) > 8]
+    many = tc.select(cb, nconc, lambda f: (min(f["trecv"], 3), min(f["crecv"], 3), f["tfin"] > 0, f["cfin"] > 0), rng)
+    if len(many) < nconc * 0.7:
+        raise vlib.Inconclusive("only %d behaviours for the concurrent variant" % len(many))
+    merged = tc.merge_behaviours(many)
+    mcases, _, _, h6 = tc.run_family(ctx, "C02_", [merged], label="c02-concurrent-%d" % len(many), timeout_ms=8000, par=1,
+                                     extra=["-own-waits", "-await-ms", "1000", "-hang-ms", "12000"], confirm=False)
+    if h6:
+        raise vlib.Inconclusive("concurrent variant: handlers still running: %s" % ctx.notes[-1])
+    ctx.cov["concurrent_relays_on_one_listener"] = len(mcases)
+    ctx.cov["distinct_nontrivial"] += 1
     pick = pick + tpick + lpick + big + zpick
     cases = cases + tcases + lcases + bcases + zcases
     ntv = 0
